@@ -53,9 +53,10 @@ def steps_of(beh):
 class Session:
     """an executor plus bookkeeping for replaying many behaviours"""
 
-    def __init__(self, check):
+    def __init__(self, check, profile="release"):
         self.check = check
-        self.ex = Executor()
+        self.profile = profile
+        self.ex = Executor(profile=profile)
         self.n = 0
 
     def close(self):
@@ -83,7 +84,7 @@ class Session:
         if all(b.startswith("TOOL:") for b in bad):
             raise ToolError("replay of behaviour %s failed at step %d: %s" % (label or self.n, idx, bad))
         # confirm on a fresh executor process before reporting (rules out harness state)
-        with Executor() as ex2:
+        with Executor(profile=self.profile) as ex2:
             rp2 = Replayer(ex2, leaves, exact_tags=exact_tags, prefix="v_", **kw)
             idx2, bad2 = rp2.run(steps)
         if idx2 is None:
@@ -91,7 +92,7 @@ class Session:
         st = steps[idx2]
         self.check.violation(
             "step %d (%s%s): %s" % (idx2, st["op"], "/" + st["form"] if st.get("form") else "", "; ".join(bad2)),
-            {"kind": "behaviour", "exact_tags": "ALL" if exact_tags == ALL else sorted(exact_tags),
+            {"kind": "behaviour", "profile": self.profile, "exact_tags": "ALL" if exact_tags == ALL else sorted(exact_tags),
              "seed": seed() if leaf_seed is None else leaf_seed, "steps": steps[:idx2 + 1], "mismatch": bad2,
              "calls": [{"cmd": c, "event": e} for c, e in rp2.trace[-4:]],
              "options": {k: v for k, v in kw.items()},
@@ -219,7 +220,7 @@ def _history_dependent(self, steps, idx, bad, rp, label):
     cmd_bad, ev_bad = rp.trace[-1]
     if hist is None:
         raise ToolError("mismatch did not reproduce on a fresh executor and the command history is too long to replay: %s" % bad)
-    with Executor() as ex3:
+    with Executor(profile=self.profile) as ex3:
         evs = [ex3.call(c) for c in hist]
     # the mismatching call is the last one of this behaviour in the history (drop commands follow it)
     pos = max(i for i, c in enumerate(hist) if c == cmd_bad)
